@@ -167,6 +167,10 @@ def job_list(ctx):
             jobs.append((sc, 2, "all", (), 0, ctx.scratch))
             if not quick:
                 jobs.append((sc, 2, "default_ont", (), 0, ctx.scratch))
+    # reference gene ids sorting after "novel_gene_" (annotated=3): scenarios in which novel genes are joined to annotated ones
+    for sc in scen:
+        if any(st in ("J1", "N2", "A1", "H3", "I1") for st, _ in sc) and (len(sc) == 1 or all(l == 12 for _, l in sc)):
+            jobs.append((sc, 3, "default_ont", (), 0, ctx.scratch))
     # report_canonical levels / novel unspliced
     for sc in scen:
         if len(sc) <= (1 if quick else 2):
